@@ -173,7 +173,7 @@ impl LangInterpreter for French {
             }
             "million" | "millionième" if b.is_range_free(6, 8) => b.shift(6),
             "milliard" | "milliardième" => b.shift(9),
-            "et" if b.len() >= 2 => Err(Error::Incomplete),
+            "et" if b.len() >= 2 && !blocked.contains(Excludable::UN_SIX) => Err(Error::Incomplete),
 
             _ => Err(Error::NaN),
         };
